@@ -213,6 +213,9 @@ func (e *BitEval) Bits(v ssa.Value) []Bit {
 			return out
 		}
 	case *ssa.Phi:
+		if out, ok := e.condPhi(x, w); ok {
+			return out
+		}
 		var out []Bit
 		for i, ed := range x.Edges {
 			b := resize(e.Bits(ed), w)
@@ -231,6 +234,99 @@ func (e *BitEval) Bits(v ssa.Value) []Bit {
 		}
 	}
 	return tops(w)
+}
+
+// PhiCases evaluates a phi as a list of cases: edges whose predecessor blocks are the two
+// sides of one `if c` (the then-block and the branch block itself, or the then- and
+// else-blocks) are merged into one case in which a bit that is 1 on the side taken when c is
+// true and 0 on the other side becomes the bit of c (`if c { x |= MASK }`,
+// `if c { r = 1 } else { r = 0 }`). Unrelated edges stay separate cases.
+func (e *BitEval) PhiCases(x *ssa.Phi) [][]Bit {
+	w := widthOf(x.Type())
+	type entry struct {
+		pred *ssa.BasicBlock // representative predecessor
+		bits []Bit
+	}
+	blk := x.Block()
+	var ents []entry
+	for i, ed := range x.Edges {
+		ents = append(ents, entry{blk.Preds[i], resize(e.Bits(ed), w)})
+	}
+	// the If block that decides between reaching the join directly/through p
+	merge := func(a, b entry) (entry, bool) {
+		// b's block is entered only from a's block, which ends in an If
+		var c *ssa.BasicBlock
+		aDirect := false
+		switch {
+		case len(b.pred.Preds) == 1 && b.pred.Preds[0] == a.pred && termIf(a.pred) != nil && len(b.pred.Succs) == 1:
+			c, aDirect = a.pred, true
+		case len(a.pred.Preds) == 1 && len(b.pred.Preds) == 1 && a.pred.Preds[0] == b.pred.Preds[0] && termIf(a.pred.Preds[0]) != nil && len(a.pred.Succs) == 1 && len(b.pred.Succs) == 1 && a.pred != b.pred:
+			c = a.pred.Preds[0]
+		default:
+			return entry{}, false
+		}
+		cb := e.Bits(termIf(c).Cond)
+		if len(cb) != 1 || cb[0].Kind != 2 {
+			return entry{}, false
+		}
+		// which entry is the side taken when the condition is true?
+		t, f := b, a
+		if aDirect {
+			if c.Succs[0] != b.pred {
+				t, f = a, b
+			}
+		} else if c.Succs[0] == a.pred {
+			t, f = a, b
+		}
+		out := make([]Bit, w)
+		for i := 0; i < w; i++ {
+			switch {
+			case t.bits[i] == f.bits[i]:
+				out[i] = t.bits[i]
+			case t.bits[i].Kind == 1 && f.bits[i].Kind == 0:
+				out[i] = cb[0]
+			default:
+				out[i] = bitTop
+			}
+		}
+		return entry{c, out}, true
+	}
+	for changed := true; changed && len(ents) > 1; {
+		changed = false
+	search:
+		for i := range ents {
+			for j := range ents {
+				if i == j {
+					continue
+				}
+				if m, ok := merge(ents[i], ents[j]); ok {
+					var rest []entry
+					for k := range ents {
+						if k != i && k != j {
+							rest = append(rest, ents[k])
+						}
+					}
+					ents = append(rest, m)
+					changed = true
+					break search
+				}
+			}
+		}
+	}
+	var out [][]Bit
+	for _, en := range ents {
+		out = append(out, en.bits)
+	}
+	return out
+}
+
+// condPhi: the phi evaluates to a single case.
+func (e *BitEval) condPhi(x *ssa.Phi, w int) ([]Bit, bool) {
+	cases := e.PhiCases(x)
+	if len(cases) == 1 && len(x.Edges) > 1 {
+		return cases[0], true
+	}
+	return nil, false
 }
 
 func combine(op token.Token, a, b Bit) Bit {
